@@ -37,6 +37,10 @@ def gen_requests(rng, n=None):
                      'linger': rng.random() < 0.3,
                      'kind': rng.choice(('scripted', 'scripted', 'bundled')),
                      'style': gen.gen_style(rng), 'seed': rng.randrange(1 << 30)})
+        if version != 18 and reqs[-1]['kind'] == 'scripted' and rng.random() < 0.35:
+            # hangs up right after sending its request (refused whatever the order)
+            reqs[-1]['impatient'] = True
+            reqs[-1]['linger'] = False
     return reqs
 
 
@@ -126,8 +130,11 @@ def spawn_requesters(sim, scn, run):
         pl = session.make_player(scn, rq['seat'], rq, role, team=rq['team'],
                                  version=rq['version'], on_verdict=d.on_verdict,
                                  pre_connect=pre, post_connect=post,
-                                 linger_gate=d.release if rq.get('linger') else None)
+                                 linger_gate=d.release if rq.get('linger') else None,
+                                 impatient=bool(rq.get('impatient')))
         pl.is_filler = False
+        if rq.get('impatient'):
+            sim.count_fault('requester.impatient')
         run.players.append(pl)
         sim.spawn(pl.run, role, proc=role)
     sim.spawn(d.main, 'director')
